@@ -457,6 +457,8 @@ func ggOverwriteValues(f *ggField) []uint64 {
 		cand = append(cand, 3<<19) // x 8-byte dimensions
 	case "keylen", "strlen", "elemstrlen", "tnamelen":
 		cand = append(cand, 3<<22) // bytes
+		// just past the decoder's internal buffers (16 KiB scratch, 32 KiB bufio)
+		cand = append(cand, 16<<10, 16<<10+1, 32<<10+1)
 	default:
 		cand = append(cand, 3<<18, 3<<22)
 	}
